@@ -161,9 +161,16 @@ def io_args_case(task):
     root = runner.scratch_root()
     bad = []
     try:
-        d = c13.make_dataset(ds)
+        noit = isinstance(ds, str)
+        d = c13.make_dataset(int(ds[0]) if noit else ds)
         I = c13.it_selection(d, isel)
-        V = c13.var_selection(vsel)
+        if noit:           # data without an 'it' column (positional entries)
+            I = list(range(len(I)))
+            del d['it']
+        V = {'itA': ['it', 'A'], 'tA': ['t', 'A'],
+             'Ait': ['A', 'it']}.get(vsel) or c13.var_selection(vsel)
+        if noit:
+            V = [v for v in V if v != 'it']
         param = {'datapath': root + ('/s/' if slash else '/s')}
         objs = {'param': param, 'data': d, 'it': I, 'vars': V}
         before = {k: snapshot(v) for k, v in objs.items()}
@@ -248,9 +255,11 @@ def main(tier):
             run.violation(f"C02:over_time:{b[0]}:{b[1] if b[0] == 'argument-modified' else ''}",
                           f"over_time{t}: {b}", {'over_time': list(t)})
     io = []
-    for ds in range(4):
+    for ds in (0, 1, 2, 3, '0-noit', '1-noit'):
         for isel in ('all', 'second'):
-            for vsel in ('all', 'A', 'BA'):
+            for vsel in ('all', 'A', 'BA', 'itA', 'tA', 'Ait'):
+                if vsel == 'tA' and ds == 3:
+                    continue           # dataset 3 has no time column
                 for slash in (True, False):
                     io.append((ds, isel, vsel, 0, slash))
     for t, bad in zip(io, runner.pmap(io_args_case, io)):
